@@ -119,6 +119,12 @@ def differential_case(ck, builds, idx, cls, tier):
                 env["OMP_NESTED"] = "true"
             elif nest < 0.45:
                 env["OMP_MAX_ACTIVE_LEVELS"] = "2"
+            lim = rng.random()
+            if lim < 0.15:
+                # the environment grants fewer threads than kalign asks for
+                env["OMP_THREAD_LIMIT"] = rng.choice(["2", "3", "5"])
+            elif lim < 0.25:
+                env["OMP_DYNAMIC"] = "true"
             ts = None
             if tier == "thorough" or rep == 1:
                 ts = rng.choice([None, "0", "0,1", "0-15"])
@@ -140,6 +146,8 @@ def differential_case(ck, builds, idx, cls, tier):
             ck.count("runs_with_affinity_mask_%s" % ts)
         if env.get("OMP_NESTED") or env.get("OMP_MAX_ACTIVE_LEVELS"):
             ck.count("runs_with_nested_parallelism_enabled")
+        if env.get("OMP_THREAD_LIMIT") or env.get("OMP_DYNAMIC"):
+            ck.count("runs_with_fewer_threads_granted_than_requested")
         ck.cset("thread_counts", nt)
         if ck.proc_violations(r, c2):
             continue
@@ -300,7 +308,7 @@ def run(ck, tier):
         common.pmap(lambda i: tsan_case(ck, tpaths, 5000 + i, tcls[i % 8]), range(int(ntsan * max(1.0, sc))), workers=6)
     ck.rule = ("inputs reaching every parallel region (>= 100 sequences: distance matrix omp-for and k-means restart tasks; duplicates: k-means tie fallback; wide "
                "trees: tree-parallel merges; >= 500 columns: Hirschberg halves as tasks); each is run at 1 thread and then at thread counts from "
-               "{2,3,4,7,8,16,32,64} x repeats with seeded injected delays, affinity masks of 1/2/16 cores and nested parallelism on/off, in the no-OpenMP, "
+               "{2,3,4,7,8,16,32,64} x repeats with seeded injected delays, affinity masks of 1/2/16 cores, nested parallelism on/off and thread limits below the requested count (OMP_THREAD_LIMIT, OMP_DYNAMIC), in the no-OpenMP, "
                "clang/libomp and ASan builds: output bytes must be identical; the hook runtime checks merge and DP ordering online in every guarded run; a "
                "ThreadSanitizer+Archer build runs the same inputs at 2..40 threads. Non-trivial = input whose alignment contains gaps.")
     ck.assumptions = ["TSan reports whose racing location is a heap block allocated inside libomp.so (recycled task descriptors) are discarded (DESIGN 2.1)",
